@@ -20,6 +20,45 @@ CLAIMED = {
         ref='DESIGN.md section 7 C19'),
 }
 
+CLAIMED['C20'] = dict(
+    engine='E-mon',
+    text='Rocq theorems over the executable model Mon/AppMon.v, for every state satisfying the invariant and every '
+         'unbounded event history with an advancing clock. Per evaluation: created = min(missing, floor(available)) '
+         '<= both bounds, 0 <= available <= 2*count, deletes are exactly the surplus prefix (fifo/none) or suffix '
+         '(lifo) and oldest/newest on the sorted list, at most one REST call per application (never create+delete), '
+         'nothing for suspended/removed monitors, tokens deducted for successful creations only '
+         '(C20_create_bounded/_complete, C20_delete_exact/_complete/_oldest_or_newest, C20_one_call_per_app, '
+         'C20_inactive_no_action, C20_tokens_after). Histories: C20_invariant, C20_budget (created <= available(t0) '
+         '+ 2*count/3600*(t1-t0) while the monitor is not reconfigured), C20_removed_no_action. Constants '
+         'regenerated from the Python AST each run (C20_constants_canonical by vm_compute). Model tied by '
+         'differential execution of the real _run_sync loop (vm_compute over cases files).',
+    note='Coq kernel; translator tables_c20.py; fakes for ZooKeeper/time/cell API/alerts; tokens compared on the '
+         'integer lattice 1/(_INTERVAL*tps), float-ambiguous cases skipped and counted; scheduled list as read by '
+         'each evaluation (watch lag = environment); no concurrent watch callbacks; alert_f total; wait-time values '
+         'and api/instance.py quotas not modelled; budget theorem per configuration epoch.',
+    technique='Rocq proof (induction over event histories, scaled-integer token bucket) over AST-regenerated '
+              'constants + differential correspondence of the real _run_sync loop (cases.v/vm_compute)',
+    ref='DESIGN.md section 7 C20')
+
+SCHED_NOTE = ('Coq kernel; hand-written model Sched/*.v of treadmill.scheduler tied by per-operation digest '
+              'correspondence on generated histories (E-cell); set.pop() choices fed from the implementation; exact '
+              'rationals for utilisation with the x+eps case split; virtual clock; integer vectors of dimension 3; '
+              'SpreadStrategy only.')
+CLAIMED['C06'] = dict(
+    engine='E-cell',
+    text='Rocq theorems for every allocation tree (any depth) and population: C06_perm/C06_each_once (each instance '
+         'of the partition considered exactly once), C06_rank_mono (ranks non-decreasing along the queue, given '
+         'rank_adjustment >= 0, priorities >= 0, non-negative demands and reservations), C06_alloc_order (inside an '
+         'allocation: priority, running before pending, first-come), C06_rank_decision + C06_boost + C06_cap (boosted '
+         'rank <=> utilisation before the instance negative and within the cap; unplaced rank <=> utilisation after '
+         'exceeds cap-1); scheduler constants regenerated from the source (C06_constants). Partial: preservation of '
+         'each sub-allocation\'s internal order by the parent merge and priority-0-last within a rank are decided '
+         'by the correspondence (queue in every cycle digest) and the oracle only.',
+    note=SCHED_NOTE,
+    technique='Rocq proof (induction over the nested allocation tree, k-way merge lemmas) + per-operation digest '
+              'correspondence of the real scheduler objects (cases.v/vm_compute)',
+    ref='DESIGN.md section 7 C06')
+
 NOT_YET = {}
 
 
@@ -57,6 +96,14 @@ def main():
             {'name': 'E-api', 'path': 'harness/props/c19.py', 'serves_properties': ['C19'],
              'kind_free_text': 'differential: real api.allocation._check_capacity with fake admin objects vs '
                                'Gallina model evaluated by vm_compute'},
+            {'name': 'E-mon', 'path': 'harness/props/c20.py', 'serves_properties': ['C20'],
+             'kind_free_text': 'differential: real sproc.appmonitor._run_sync with fake ZooKeeper, clock and REST '
+                               'API vs the Gallina model evaluated by vm_compute'},
+            {'name': 'E-cell', 'path': 'harness/ecell.py', 'serves_properties': ['C01', 'C02', 'C03', 'C04', 'C05',
+                                                                                 'C06', 'C07', 'C08'],
+             'kind_free_text': 'differential: real treadmill.scheduler Cell/Bucket/Server/Allocation/Application '
+                               'objects driven by generated histories (virtual clock) vs Sched/Events.v run_case; '
+                               'digest of the canonical dump after every operation'},
         ],
         'checks': checks,
         'not_applicable': na,
